@@ -17,6 +17,8 @@ META = {
 
 def queries():
     qs = []
+    qs.append(Q("step-base-set_buffer-bidi1500", "C06_step.c", units=["src/ssl/ssl_engine.c"], defs=["-DOP=9", "-DSHARED=1", "-DILEN=1500", "-DBASE_BIDI=1"], unwind=8, timeout=900,
+                desc="br_ssl_engine_set_buffer with any length <= 1500, bidi or not, establishes the invariant or fails with BAD_PARAM; split geometry"))
     layouts = [("shared837", ["-DSHARED=1", "-DILEN=837"], "quick"),
                ("split837+597", ["-DSHARED=0", "-DILEN=837", "-DOLEN=597"], "quick"),
                ("shared1400", ["-DSHARED=1", "-DILEN=1400"], "thorough"),
